@@ -71,6 +71,7 @@ def gen(seed, tier):
             kind = rng.choice(EXCEPTION_KINDS + ["ret:" + v for v in FALSY_VALUES[:4]] + ["ret:str", "SystemExit", "BaseSub"])
             fault = {"kind": "service", "pos": rng.choice(svcs), "after": rng.choice([0.0, 0.0, 0.3, 1.0, 2.5]), "fail_kind": kind}
     extras = {"logging": fmt == "yaml" and rng.random() < 0.3, "simsection": fmt == "yaml" and rng.random() < 0.3}
+    extras["late_modules"] = fmt == "yaml" and rng.random() < 0.25
     if extras["logging"]:
         # with or without spelling out disable_existing_loggers (cobald defaults it to false for the user)
         extras["logging"] = rng.choice(["explicit", "default", "default-with-root"])
@@ -179,6 +180,9 @@ def render_yaml(sc):
                 lines += ["    %s: %s" % (k, _y(v)) for k, v in kw.items()]
             else:
                 path = TYPE_PATH.get(e["cls"], "rtsim.c13_elements." + e["cls"])
+                if e["sim"] and sc.get("extras", {}).get("late_modules"):
+                    # named through a submodule of a package nothing has imported yet
+                    path = "verifcfgpkg.m%d.%s" % (i, e["cls"])
                 lines.append("  - __type__: %s" % path)
                 lines += ["    %s: %s" % (k, _y(v)) for k, v in kw.items()]
     return "\n".join(lines) + "\n"
@@ -262,6 +266,15 @@ def main(h):
         text = text[: int(len(text) * fault.get("cut", 0.5))]
     if what == "empty-file":
         text = ""
+    if sc.get("extras", {}).get("late_modules"):
+        pkg = os.path.join(tmp, "verifcfgpkg")
+        os.mkdir(pkg)
+        open(os.path.join(pkg, "__init__.py"), "w").close()
+        for i, e in enumerate(sc["elements"]):
+            if e["sim"]:
+                with open(os.path.join(pkg, "m%d.py" % i), "w") as f:
+                    f.write("from rtsim.c13_elements import %s  # noqa: F401\n" % e["cls"])
+        sys.path.insert(0, tmp)
     path = os.path.join(tmp, "config" + ext)
     if what == "is-directory":
         os.mkdir(path)
